@@ -93,7 +93,15 @@ class Run:
         self.sched_digests = set()
         self.thread_yields = []
         self.sched_choices = {}       # step index -> decisions taken
+        self.race_records = {}        # key -> [(child key, ok)] (free steps)
         self.metadata_games = False
+        # two different functions registered under one name: the cache is
+        # keyed by the name, so "the same build from scratch" is not defined
+        # when both are called with equal keys (the precondition of C01 -
+        # a name identifies one deterministic function - does not hold);
+        # the comparison with the incremental model stays in force
+        names = [f['name'] for f in sc.get('funcs', {}).values()]
+        self.name_clash = len(set(names)) < len(names)
         self.build_no = 0
         for m in sc.get('init', []):
             self.sb.apply_mutation(m)
@@ -204,6 +212,10 @@ class Run:
                 self.log.append(['chdir', i])
             elif op == 'refuse':
                 self.refuse_step(i, step)
+            elif op == 'freebuild':
+                self.free_build_step(i, step)
+            elif op == 'freeclean':
+                self.free_clean_step(i, step)
             else:
                 raise HarnessError('unknown step %r' % (op,))
         except Violation as v:
@@ -446,7 +458,7 @@ class Run:
             c = c.split(' ')[0] if isinstance(c, str) else str(c)
             self.stats['causes'][c] = self.stats['causes'].get(c, 0) + 1
         if prev is not None and self.cfg.get('m1_crosscheck') and \
-                not self.metadata_games:
+                not self.metadata_games and not self.name_clash:
             # model self-consistency: what the incremental model (M2) serves
             # from the record must equal what the from-scratch model (M1)
             # computes - otherwise a too permissive replay rule in the model
@@ -472,6 +484,7 @@ class Run:
             self.compare_build(i, ctx)
         except Violation as v:
             if prev is not None and 'C01' not in v.props and \
+                    not self.name_clash and \
                     self.differs_from_scratch(step, ctx):
                 # the implementation itself, run without its cache on the
                 # same pre-state, behaves differently: cache transparency
@@ -480,7 +493,8 @@ class Run:
                 v.detail['differs_from_scratch_run'] = True
             raise
         if prev is not None and self.cfg.get('scratch_diff') and \
-                not self.metadata_games and real.sched is None:
+                not self.metadata_games and not self.name_clash and \
+                real.sched is None:
             # model-free differential, in the words of C01: the same build,
             # by the implementation itself, without its cache
             if self.differs_from_scratch(step, ctx):
@@ -496,6 +510,134 @@ class Run:
             self.records[bdigest(n[1], 20)] = rec
         else:
             self.stats['rollbacks'] += 1
+
+    # ------------------------------------------------------------------
+    # Model-free steps (racing duplicates, C08): who wins a race for a key is
+    # not specified, so no sequential model predicts the outcome; what is
+    # specified is checked directly.
+    def free_build_step(self, i, step):
+        """A build whose outcome is judged without the reference model.
+
+        * every key (output path / subbuild name+arguments) is *performed* at
+          most once in the build, where a performance is a call that returned
+          normally - executed or served from the cache - or is implied by a
+          served call whose recorded subtree contains it;
+        * no function is entered twice for one key, no deadlock, no exception
+          other than RuntimeError for the losers of a race;
+        * a sequential build (no ``sched``) additionally equals the same
+          build run from scratch by the implementation itself (value, files).
+        """
+        import types
+        sb = self.sb
+        sb.clock.advance(step.get('tick', 1))
+        self.build_no = i
+        pre = sb.snapshot()
+        had_cache = sb.cache in pre
+        self._pre = self._prev = None
+        real = self.real_build(step)
+        post = sb.snapshot()
+        rit = real.it
+        real.tree_sig = tree_sig(post, sb, sb.cache)
+        self.last_outcome = real
+        self.stats['builds'] += 1
+        self.log.append(['freebuild', i, real.kind, real.exc,
+                         digest(real.value), real.order, real.tree_sig,
+                         digest(real.sched.choices) if real.sched else None])
+        tags = step.get('tags', [])
+        props = ['C08'] + [t for t in tags if t != 'C08']
+        for pr, what, where in rit.viol:
+            raise Violation([pr] + [t for t in tags if t != pr], 'O-call',
+                            what, {'where': where}, i)
+        if real.exc == 'SimDeadlock':
+            raise Violation(['C09'] + [t for t in tags if t != 'C09'],
+                            'O-thread', 'deadlock',
+                            {'info': str(real.exc_obj)}, i)
+        if real.kind != 'ok':
+            raise Violation(props, 'O-ret', 'unexpected-exception',
+                            {'exc': real.exc, 'tb': real.tb}, i)
+        recs = self.race_records
+        perf = {}
+        why = {}
+
+        def implied(key, via, depth=0):
+            for k, ok in recs.get(key, ()):
+                if ok:
+                    perf[k] = perf.get(k, 0) + 1
+                    why.setdefault(k, []).append('implied by served ' + via)
+                    if depth < 8:
+                        implied(k, via, depth + 1)
+
+        for e in rit.calls_log:
+            if e['ok']:
+                perf[e['key']] = perf.get(e['key'], 0) + 1
+                why.setdefault(e['key'], []).append(
+                    ('executed' if e['entered'] else 'served') +
+                    ' in ' + e['frame'])
+                if not e['entered']:
+                    implied(e['key'], e['key'])
+            elif e['exc'] not in ('RuntimeError',) and \
+                    not e['exc'].startswith('User') and \
+                    e['exc'] not in ('ValueError', 'KeyError'):
+                raise Violation(props, 'O-thread', 'spurious-exception',
+                                {'call': e['key'], 'exc': e['exc']}, i)
+        for k in sorted(perf):
+            if perf[k] > 1:
+                raise Violation(
+                    props, 'O-thread', 'duplicate-undetected',
+                    {'key': k, 'performed': perf[k], 'how': why[k]}, i)
+        if perf:
+            self.probe('race-keys-checked', len(perf))
+        if any(e['exc'] == 'RuntimeError' for e in rit.calls_log):
+            self.probe('race-duplicate-refused')
+        # bookkeeping: the recorded children of every key
+        for e in rit.calls_log:
+            if e['ok'] and e['entered']:
+                recs[e['key']] = [(c['key'], c['ok']) for c in rit.calls_log
+                                  if c['frame'] == e['key']]
+            elif not e['ok']:
+                recs.pop(e['key'], None)
+        if step.get('sched') is None and had_cache:
+            targets = [t for t in sorted(self.program_targets())]
+            fake = types.SimpleNamespace(outputs=targets, created_dirs=[])
+            ctx = {'pre': pre, 'prev': fake, 'real': real, 'post': post}
+            if self.differs_from_scratch(step, ctx):
+                raise Violation(
+                    ['C01'] + props, 'O-diff',
+                    'incremental-differs-from-scratch',
+                    {'note': 'sequential build after racing builds'}, i)
+            sb.restore(post)
+            self.probe('scratch-differentials')
+        self.stats['commits'] += 1
+
+    def free_clean_step(self, i, step):
+        sb = self.sb
+        sb.clock.advance(1)
+        self.sim.reset(sandbox=sb,
+                       listdir_seed=self.cfg.get('listdir_seed'))
+        self.sim.phase = 'clean'
+        kind, exc = 'ok', None
+        try:
+            self.fb.FileBuilder.clean(sb.cache,
+                                      self.cfg.get('build_name', 'B'))
+        except Exception as e:
+            kind, exc = 'exc', type(e).__name__
+        finally:
+            self.sim.phase = 'idle'
+        post = sb.snapshot()
+        self.log.append(['freeclean', i, kind, exc,
+                         tree_sig(post, sb, sb.cache)])
+        self.stats['cleans'] += 1
+        tags = step.get('tags', [])
+        props = ['C12'] + [t for t in tags if t != 'C12']
+        if kind != 'ok':
+            raise Violation(props, 'O-ret', 'clean-raised', {'exc': exc}, i)
+        left = [sb.rel(p) for p in sorted(self.program_targets())
+                if p in post] + ([sb.rel(sb.cache)] if sb.cache in post
+                                 else [])
+        if left:
+            raise Violation(props, 'O-tree', 'clean-left-f',
+                            {'path': left[0]}, i)
+        self.race_records.clear()
 
     def refused_call_effect(self, step, ent, post, pre):
         """Did a builder call that raised RuntimeError('already finished')
